@@ -111,8 +111,14 @@ fn state(d: &Dev) -> String {
             d.esr, d.ese, d.sre, reg(&d.operation), reg(&d.questionable), d.hook_calls)
 }
 
-pub fn run(args: &[&str]) -> String {
+pub fn run(args: &[&str]) -> String { run_mode(args, false) }
+/// kind `deva`: the same histories, but every message runs with a pre-reserved response buffer and error queue and the
+/// heap allocations made during Node::run are counted (C11: the library's own handlers must not allocate)
+pub fn run_alloc(args: &[&str]) -> String { run_mode(args, true) }
+
+fn run_mode(args: &[&str], count_allocs: bool) -> String {
     let mut d = Dev::new();
+    if count_allocs { d.errors.reserve(4096); }
     let mut out = Vec::new();
     for step in args.get(0).unwrap_or(&"").split('|') {
         if step.is_empty() { continue; }
@@ -122,9 +128,14 @@ pub fn run(args: &[&str]) -> String {
                 let msg = unhex(val);
                 let mut ctx = Context::new();
                 ctx.mav = head.as_bytes()[1] == b'1';
-                let mut resp: Vec<u8> = Vec::new();
+                let mut resp: Vec<u8> = if count_allocs { Vec::with_capacity(1 << 16) } else { Vec::new() };
                 d.hook_calls = 0;
+                let before = crate::k_tree::allocs();
                 let r = TREE.run(&msg, &mut d, &mut ctx, &mut resp);
+                if count_allocs {
+                    out.push(format!("a={}", crate::k_tree::allocs() - before));
+                    continue;
+                }
                 match r {
                     Ok(()) => out.push(format!("OK {} {}", hex(&resp), state(&d))),
                     Err(e) => out.push(format!("{} - {}", show_error(&e), state(&d))),
